@@ -139,8 +139,8 @@ Definition omin_list (l : list (option Z)) : option Z :=
                            | None, y => y
                            end) None l.
 
-Definition shard_height : Z := 16.   (* SAPLING/ORCHARD/IRONWOOD_SHARD_HEIGHT = 32 / 2 *)
-Definition subtree_index (pos : Z) : Z := pos / 2 ^ shard_height.
+(** Address::above_position(SHARD_HEIGHT, position).index(); the shard heights come from Gen/C15Tables.v *)
+Definition subtree_index (shard_height pos : Z) : Z := pos / 2 ^ shard_height.
 
 Definition list_min (l : list Z) : option Z :=
   match l with [] => None | x :: r => Some (fold_right Z.min x r) end.
@@ -167,11 +167,11 @@ Definition or_else {A} (a b : option A) : option A := match a with Some _ => a |
 
 (** [scan_complete(range, wallet_note_positions)]: positions per pool *)
 Definition scan_complete (c : ctx) (q : queue) (s e : Z) (sap orc iro : list Z) : qres queue :=
-  let ext1 := extend_range s e (map subtree_index sap) (sapling_shards c) (sapling_act c) (birthday c) in
+  let ext1 := extend_range s e (map (subtree_index SAPLING_SHARD_HEIGHT) sap) (sapling_shards c) (sapling_act c) (birthday c) in
   let r1 := match ext1 with Some r => r | None => (s, e) end in
-  let ext2 := or_else (extend_range (fst r1) (snd r1) (map subtree_index orc) (orchard_shards c) (nu5_act c) (birthday c)) ext1 in
+  let ext2 := or_else (extend_range (fst r1) (snd r1) (map (subtree_index ORCHARD_SHARD_HEIGHT) orc) (orchard_shards c) (nu5_act c) (birthday c)) ext1 in
   let r2 := match ext2 with Some r => r | None => (s, e) end in
-  let ext3 := or_else (extend_range (fst r2) (snd r2) (map subtree_index iro) (ironwood_shards c) (nu6_3_act c) (birthday c)) ext2 in
+  let ext3 := or_else (extend_range (fst r2) (snd r2) (map (subtree_index IRONWOOD_SHARD_HEIGHT) iro) (ironwood_shards c) (nu6_3_act c) (birthday c)) ext2 in
   let query := match ext3 with Some r => r | None => (s, e) end in
   do scanned <- of_opt (from_parts s e Scanned);
   do before <- match ext3 with
@@ -194,7 +194,7 @@ Definition tip_plan (c : ctx) (new_tip : Z) : qres (option (Z * Z * list sr)) :=
       else
         let chain_end := hadd new_tip 1 in
         (* the chain tip is below the wallet birthday: nothing to add *)
-        if match birthday c with Some b => chain_end <? b | None => false end then Ok None else
+        if match birthday c with Some b => new_tip <? b | None => false end then Ok None else
         let min_shard_tip := omin_list [tip_shard_end_height (sapling_shards c);
                                         tip_shard_end_height (orchard_shards c);
                                         tip_shard_end_height (ironwood_shards c)] in
